@@ -15,5 +15,7 @@ PROP = {
             native("c19"),
             miri("c19", seeds_q=0, seeds_t=16, args={"cases": 12}, timeout={"thorough": 2400}),
             san("asan", "c19", scale=5),
+            # "via each sink": the sink monitor of C13 run under this property (C13's own known findings stay with C13)
+            native("c13", pkg="monx", name="sinks", borrow="C13"),
         ],
     }
